@@ -4,7 +4,9 @@ import (
 	"bufio"
 	"fmt"
 	"io"
+	"os"
 	"os/exec"
+	"sort"
 	"strconv"
 	"strings"
 	"time"
@@ -17,15 +19,17 @@ type SolverStats struct {
 }
 
 type Solver struct {
-	cmd     *exec.Cmd
-	in      io.WriteCloser
-	out     *bufio.Reader
-	p       *printer
-	stats   SolverStats
-	log     io.Writer
-	binName string
-	timeout int
-	dead    bool
+	depth     int            // scopes pushed for the current path (one per decision)
+	declLevel map[string]int // variable -> scope depth at which it was declared
+	cmd       *exec.Cmd
+	in        io.WriteCloser
+	out       *bufio.Reader
+	p         *printer
+	stats     SolverStats
+	log       io.Writer
+	binName   string
+	timeout   int
+	dead      bool
 }
 
 var solverBin = "z3"
@@ -57,6 +61,10 @@ func (s *Solver) start() {
 		panic(fmt.Sprintf("cannot start solver %s: %v", s.binName, err))
 	}
 	s.cmd, s.in, s.out = cmd, in, bufio.NewReaderSize(out, 1<<20)
+	if lp := os.Getenv("GOSYM_SOLVERLOG"); lp != "" && s.log == nil {
+		f, _ := os.Create(fmt.Sprintf("%s.%d", lp, cmd.Process.Pid))
+		s.log = f
+	}
 	s.p = newPrinter()
 	if s.binName == "cvc5" {
 		s.send("(set-logic ALL)\n")
@@ -65,6 +73,8 @@ func (s *Solver) start() {
 	}
 	s.send("(push)\n")
 	s.dead = false
+	s.depth = 0
+	s.declLevel = map[string]int{}
 }
 
 func (s *Solver) Close() {
@@ -87,16 +97,54 @@ func (s *Solver) send(str string) {
 
 // Reset drops everything asserted in the current execution.
 func (s *Solver) Reset() {
+	s.ResetTo(0)
+}
+
+// ResetTo keeps the first keep decision scopes of the previous path (their assertions are identical on the new
+// path) and drops the rest.
+func (s *Solver) ResetTo(keep int) {
 	if s.dead {
 		s.Close()
 		s.start()
 		return
 	}
-	s.send("(pop)\n(push)\n")
+	if keep > s.depth {
+		keep = s.depth
+	}
+	if keep == 0 {
+		s.send(fmt.Sprintf("(pop %d)\n(push)\n", s.depth+1))
+		s.depth = 0
+		s.declLevel = map[string]int{}
+	} else if s.depth > keep {
+		s.send(fmt.Sprintf("(pop %d)\n", s.depth-keep))
+		s.depth = keep
+		for n, l := range s.declLevel {
+			if l > keep {
+				delete(s.declLevel, n)
+			}
+		}
+	}
+	oldN := s.p.n
 	s.p = newPrinter()
+	s.p.n = oldN // definition names stay unique across the retained scopes
+	for n := range s.declLevel {
+		s.p.decls[n] = Sort{} // known to the solver already
+	}
+	s.p.known = s.declLevel
+}
+
+// PushScope opens the scope that follows a decision.
+func (s *Solver) PushScope() {
+	s.flushDefs()
+	s.send("(push)\n")
+	s.depth++
 }
 
 func (s *Solver) flushDefs() {
+	for _, n := range s.p.newDecls {
+		s.declLevel[n] = s.depth
+	}
+	s.p.newDecls = s.p.newDecls[:0]
 	if s.p.out.Len() > 0 {
 		s.send(s.p.out.String())
 		s.p.out.Reset()
@@ -196,9 +244,10 @@ func (s *Solver) PopModelScope() { s.send("(pop)\n") }
 func (s *Solver) Model() map[string]uint64 {
 	res := map[string]uint64{}
 	var names []string
-	for n := range s.p.decls {
+	for n := range s.declLevel {
 		names = append(names, n)
 	}
+	sort.Strings(names)
 	if len(names) == 0 {
 		return res
 	}
@@ -285,8 +334,16 @@ func tokenize(s string) []string {
 }
 
 func parseValue(v []string) uint64 {
+	// integers: 5 or (- 5)
+	if len(v) == 4 && v[0] == "(" && v[1] == "-" {
+		n, _ := strconv.ParseInt(v[2], 10, 64)
+		return uint64(-n)
+	}
 	if len(v) == 1 {
 		t := v[0]
+		if n, err := strconv.ParseInt(t, 10, 64); err == nil {
+			return uint64(n)
+		}
 		switch {
 		case t == "true":
 			return 1
